@@ -18,7 +18,7 @@ git apply $SD/patch.diff || { echo "RESULT $P/$V patch-does-not-apply"; exit 1; 
 # existing tests with the change (demo removed)
 rm -f $WT/$DEST/seed_*_test.go
 for f in $SD/demo/*_test.go; do rm -f $WT/$DEST/$(basename $f); done
-python3 - "$WT" > /tmp/seedc-$P-$V-suite.log 2>&1 <<'PY'
+flock /tmp/seed-suite.lock python3 - "$WT" > /tmp/seedc-$P-$V-suite.log 2>&1 <<'PY'
 import json,subprocess,sys,os
 wt=sys.argv[1]
 passed=set()
